@@ -1,0 +1,408 @@
+//! Verification hooks. Compiled only when the crate is built with `--cfg folo_verif`.
+//!
+//! Nothing in this module (and none of the `#[cfg(folo_verif)]` items elsewhere in the crate)
+//! exists in a normal build. An external verification harness uses the hooks to observe and to
+//! schedule the hand-written waker protocol of this crate:
+//!
+//! 1. **Shim atomics and mutex** ([`AtomicUsize`], [`Mutex`]). `waker_meta.rs` and
+//!    `future_deque_core.rs` import these instead of the `std` types. Each shim is a
+//!    `#[repr(transparent)]` wrapper that performs the real `std` operation. When a hook table
+//!    is installed, [`Hooks::before`] is called immediately BEFORE the operation (the harness
+//!    uses this as a scheduling point) and [`Hooks::after`] immediately AFTER it with the
+//!    location address, the kind of operation, the `Ordering` argument(s) the code passed, the
+//!    value observed and the value written. A contended [`Mutex`] never blocks the calling
+//!    thread while hooks are installed: [`Hooks::contended`] is called and the lock attempt is
+//!    retried when it returns.
+//!
+//! 2. **Protocol events** ([`Event`]) at metadata creation, at the decision to free metadata,
+//!    around each poll of a contained future and at the parent waker check at the start of
+//!    each deque poll.
+//!
+//! The table is process-global and can be installed once ([`install`]). Without an installed
+//! table every shim behaves exactly like the `std` type it wraps.
+
+use std::ops::{Deref, DerefMut};
+use std::sync::atomic::Ordering;
+use std::sync::{LockResult, OnceLock, PoisonError, TryLockError};
+
+/// Kind of a shimmed operation.
+#[derive(Clone, Copy, Debug, Eq, Hash, PartialEq)]
+#[non_exhaustive]
+pub enum OpKind {
+    /// `AtomicUsize::load`.
+    Load,
+    /// `AtomicUsize::store`.
+    Store,
+    /// `AtomicUsize::swap`.
+    Swap,
+    /// `AtomicUsize::fetch_add`.
+    FetchAdd,
+    /// `AtomicUsize::fetch_sub`.
+    FetchSub,
+    /// `AtomicUsize::compare_exchange` (`Step::written` is `None` when it failed).
+    CompareExchange,
+    /// `Mutex::lock` (an acquire operation; reported with `Ordering::Acquire`).
+    MutexLock,
+    /// Release of a `Mutex` guard (a release operation; reported with `Ordering::Release`).
+    MutexUnlock,
+}
+
+/// One completed shimmed operation, as reported to [`Hooks::after`].
+#[derive(Clone, Copy, Debug, Eq, PartialEq)]
+#[non_exhaustive]
+pub struct Step {
+    /// Address of the atomic / mutex the operation was performed on.
+    pub location: usize,
+    /// What was done.
+    pub kind: OpKind,
+    /// The `Ordering` argument of the call (success ordering for `compare_exchange`).
+    pub order: Ordering,
+    /// The failure ordering of a `compare_exchange`, otherwise `None`.
+    pub failure_order: Option<Ordering>,
+    /// Value the operation read (0 for `store` and mutex operations).
+    pub observed: usize,
+    /// Value the operation wrote, if it wrote.
+    pub written: Option<usize>,
+}
+
+/// Protocol events reported to [`Hooks::event`]. All fields are addresses.
+#[derive(Clone, Copy, Debug, Eq, PartialEq)]
+#[non_exhaustive]
+pub enum Event {
+    /// Waker metadata was allocated and initialized (reference count 1, activated).
+    MetaCreate {
+        /// Address of the metadata (the `RawWaker` data pointer).
+        meta: usize,
+        /// Address of its reference count.
+        ref_count: usize,
+        /// Address of its activation flag.
+        activated: usize,
+        /// Address of the shared parent waker mutex it refers to.
+        parent: usize,
+    },
+    /// The last reference was released; the metadata is about to be returned to its pool.
+    MetaFree {
+        /// Address of the metadata.
+        meta: usize,
+    },
+    /// The deque is about to poll the contained future that owns this metadata.
+    PollFuture {
+        /// Address of the metadata.
+        meta: usize,
+    },
+    /// The poll announced by the preceding [`Event::PollFuture`] on this thread returned.
+    PollFutureDone {
+        /// Whether the future completed.
+        ready: bool,
+    },
+    /// Start of a deque poll, with the parent mutex held: the stored parent waker is compared
+    /// with the caller's waker and replaced if it would not wake the same task.
+    ParentCheck {
+        /// Address of the shared parent waker mutex.
+        parent: usize,
+        /// Result of `will_wake`; the stored waker is replaced iff this is `false`.
+        will_wake: bool,
+    },
+}
+
+/// Function table the harness installs.
+#[derive(Clone, Copy, Debug)]
+#[non_exhaustive]
+pub struct Hooks {
+    /// Called BEFORE each shimmed operation (not before a mutex release).
+    pub before: fn(location: usize, kind: OpKind, order: Ordering),
+    /// Called AFTER each shimmed operation.
+    pub after: fn(step: &Step),
+    /// Called when `Mutex::lock` finds the mutex held; the attempt is retried on return.
+    pub contended: fn(location: usize),
+    /// Called at protocol events.
+    pub event: fn(event: &Event),
+}
+
+impl Hooks {
+    /// Creates a table.
+    #[must_use]
+    pub fn new(
+        before: fn(usize, OpKind, Ordering),
+        after: fn(&Step),
+        contended: fn(usize),
+        event: fn(&Event),
+    ) -> Self {
+        Self {
+            before,
+            after,
+            contended,
+            event,
+        }
+    }
+}
+
+static HOOKS: OnceLock<Hooks> = OnceLock::new();
+
+/// Installs the process-global hook table. Returns `false` if one was already installed.
+pub fn install(hooks: Hooks) -> bool {
+    HOOKS.set(hooks).is_ok()
+}
+
+#[inline]
+fn before(location: usize, kind: OpKind, order: Ordering) {
+    if let Some(h) = HOOKS.get() {
+        (h.before)(location, kind, order);
+    }
+}
+
+#[inline]
+fn after(
+    location: usize,
+    kind: OpKind,
+    order: Ordering,
+    failure_order: Option<Ordering>,
+    observed: usize,
+    written: Option<usize>,
+) {
+    if let Some(h) = HOOKS.get() {
+        (h.after)(&Step {
+            location,
+            kind,
+            order,
+            failure_order,
+            observed,
+            written,
+        });
+    }
+}
+
+/// Reports a protocol event to the installed table, if any.
+#[inline]
+pub(crate) fn event(event: &Event) {
+    if let Some(h) = HOOKS.get() {
+        (h.event)(event);
+    }
+}
+
+/// Address of a value, for reporting.
+#[inline]
+pub(crate) fn address_of<T>(value: &T) -> usize {
+    std::ptr::from_ref(value).addr()
+}
+
+/// Shim for `std::sync::atomic::AtomicUsize`.
+#[derive(Debug)]
+#[repr(transparent)]
+pub struct AtomicUsize(std::sync::atomic::AtomicUsize);
+
+#[allow(
+    dead_code,
+    reason = "the shim offers every operation a variant of the protocol may use"
+)]
+#[allow(
+    clippy::arithmetic_side_effects,
+    reason = "wrapping arithmetic mirrors what the atomic itself did"
+)]
+impl AtomicUsize {
+    /// See `std::sync::atomic::AtomicUsize::new`.
+    #[must_use]
+    pub const fn new(value: usize) -> Self {
+        Self(std::sync::atomic::AtomicUsize::new(value))
+    }
+
+    fn location(&self) -> usize {
+        address_of(&self.0)
+    }
+
+    /// See `std::sync::atomic::AtomicUsize::load`.
+    pub fn load(&self, order: Ordering) -> usize {
+        before(self.location(), OpKind::Load, order);
+        let observed = self.0.load(order);
+        after(self.location(), OpKind::Load, order, None, observed, None);
+        observed
+    }
+
+    /// See `std::sync::atomic::AtomicUsize::store`.
+    pub fn store(&self, value: usize, order: Ordering) {
+        before(self.location(), OpKind::Store, order);
+        self.0.store(value, order);
+        after(self.location(), OpKind::Store, order, None, 0, Some(value));
+    }
+
+    /// See `std::sync::atomic::AtomicUsize::swap`.
+    pub fn swap(&self, value: usize, order: Ordering) -> usize {
+        before(self.location(), OpKind::Swap, order);
+        let observed = self.0.swap(value, order);
+        after(
+            self.location(),
+            OpKind::Swap,
+            order,
+            None,
+            observed,
+            Some(value),
+        );
+        observed
+    }
+
+    /// See `std::sync::atomic::AtomicUsize::fetch_add`.
+    pub fn fetch_add(&self, value: usize, order: Ordering) -> usize {
+        before(self.location(), OpKind::FetchAdd, order);
+        let observed = self.0.fetch_add(value, order);
+        after(
+            self.location(),
+            OpKind::FetchAdd,
+            order,
+            None,
+            observed,
+            Some(observed.wrapping_add(value)),
+        );
+        observed
+    }
+
+    /// See `std::sync::atomic::AtomicUsize::fetch_sub`.
+    pub fn fetch_sub(&self, value: usize, order: Ordering) -> usize {
+        before(self.location(), OpKind::FetchSub, order);
+        let observed = self.0.fetch_sub(value, order);
+        after(
+            self.location(),
+            OpKind::FetchSub,
+            order,
+            None,
+            observed,
+            Some(observed.wrapping_sub(value)),
+        );
+        observed
+    }
+
+    /// See `std::sync::atomic::AtomicUsize::compare_exchange`.
+    pub fn compare_exchange(
+        &self,
+        current: usize,
+        new: usize,
+        success: Ordering,
+        failure: Ordering,
+    ) -> Result<usize, usize> {
+        before(self.location(), OpKind::CompareExchange, success);
+        let result = self.0.compare_exchange(current, new, success, failure);
+        let (observed, written) = match result {
+            Ok(observed) => (observed, Some(new)),
+            Err(observed) => (observed, None),
+        };
+        after(
+            self.location(),
+            OpKind::CompareExchange,
+            success,
+            Some(failure),
+            observed,
+            written,
+        );
+        result
+    }
+}
+
+/// Shim for `std::sync::Mutex`.
+#[derive(Debug)]
+#[repr(transparent)]
+pub struct Mutex<T>(std::sync::Mutex<T>);
+
+/// Guard returned by the shim [`Mutex`]; reports the release.
+#[derive(Debug)]
+pub struct MutexGuard<'a, T> {
+    location: usize,
+    // `Option` only so that `Drop` can release the real guard before reporting.
+    inner: Option<std::sync::MutexGuard<'a, T>>,
+}
+
+impl<T> Mutex<T> {
+    /// See `std::sync::Mutex::new`.
+    #[must_use]
+    pub const fn new(value: T) -> Self {
+        Self(std::sync::Mutex::new(value))
+    }
+
+    /// See `std::sync::Mutex::lock`.
+    ///
+    /// # Errors
+    ///
+    /// As `std::sync::Mutex::lock`: the mutex was poisoned.
+    pub fn lock(&self) -> LockResult<MutexGuard<'_, T>> {
+        let location = address_of(&self.0);
+
+        let Some(hooks) = HOOKS.get() else {
+            return match self.0.lock() {
+                Ok(inner) => Ok(MutexGuard {
+                    location,
+                    inner: Some(inner),
+                }),
+                Err(poisoned) => Err(PoisonError::new(MutexGuard {
+                    location,
+                    inner: Some(poisoned.into_inner()),
+                })),
+            };
+        };
+
+        (hooks.before)(location, OpKind::MutexLock, Ordering::Acquire);
+
+        loop {
+            match self.0.try_lock() {
+                Ok(inner) => {
+                    after(
+                        location,
+                        OpKind::MutexLock,
+                        Ordering::Acquire,
+                        None,
+                        0,
+                        None,
+                    );
+                    return Ok(MutexGuard {
+                        location,
+                        inner: Some(inner),
+                    });
+                }
+                Err(TryLockError::Poisoned(poisoned)) => {
+                    after(
+                        location,
+                        OpKind::MutexLock,
+                        Ordering::Acquire,
+                        None,
+                        0,
+                        None,
+                    );
+                    return Err(PoisonError::new(MutexGuard {
+                        location,
+                        inner: Some(poisoned.into_inner()),
+                    }));
+                }
+                Err(TryLockError::WouldBlock) => (hooks.contended)(location),
+            }
+        }
+    }
+}
+
+impl<T> Deref for MutexGuard<'_, T> {
+    type Target = T;
+
+    fn deref(&self) -> &T {
+        self.inner
+            .as_deref()
+            .expect("the inner guard is only taken in drop")
+    }
+}
+
+impl<T> DerefMut for MutexGuard<'_, T> {
+    fn deref_mut(&mut self) -> &mut T {
+        self.inner
+            .as_deref_mut()
+            .expect("the inner guard is only taken in drop")
+    }
+}
+
+impl<T> Drop for MutexGuard<'_, T> {
+    fn drop(&mut self) {
+        drop(self.inner.take());
+        after(
+            self.location,
+            OpKind::MutexUnlock,
+            Ordering::Release,
+            None,
+            0,
+            None,
+        );
+    }
+}
